@@ -45,6 +45,7 @@ type Run struct {
 	Budget  int
 	Actions int
 
+	ridSeq         int
 	mode           string // release | rolledback | deleted | disabled
 	target         string // version the workload should converge to
 	released       bool
@@ -71,9 +72,21 @@ type Run struct {
 	EventsFired int
 }
 
+// NewRun builds the world of one scenario. It resets the process-wide helpers of the code under test (one run
+// per process at a time); NewSharedRun does not, for runs that share one process concurrently.
 func NewRun(s *Scenario, repoDir string, faults *FaultPlan) (*Run, error) {
 	ResetProcessGlobals()
-	w, err := NewWorld(Options{RepoDir: repoDir, GraceSeconds: s.Grace})
+	return newRun(s, repoDir, faults, "")
+}
+
+// NewSharedRun builds a run meant to execute concurrently with others in the same process: process-wide helpers
+// are left alone and object uids carry a prefix so that they are unique across the concurrent worlds.
+func NewSharedRun(s *Scenario, repoDir, uidPrefix string) (*Run, error) {
+	return newRun(s, repoDir, nil, uidPrefix)
+}
+
+func newRun(s *Scenario, repoDir string, faults *FaultPlan, uidPrefix string) (*Run, error) {
+	w, err := NewWorld(Options{RepoDir: repoDir, GraceSeconds: s.Grace, UIDPrefix: uidPrefix})
 	if err != nil {
 		return nil, err
 	}
@@ -87,6 +100,10 @@ func (r *Run) trace(f string, a ...interface{}) {
 		r.Trace = append(r.Trace, fmt.Sprintf("%5d ", r.Actions)+fmt.Sprintf(f, a...))
 	}
 }
+
+// CtrlWrites / CtrlCalls count controller writes / calls since the release started (fault coordinates).
+func (r *Run) CtrlWrites() int { return r.ctrlWrites }
+func (r *Run) CtrlCalls() int  { return r.ctrlCalls }
 
 // Mode is the expectation the run ends with: release | rolledback | deleted | disabled | bg-superseded.
 func (r *Run) Mode() string { return r.mode }
@@ -407,9 +424,46 @@ func (r *Run) doUser(a string) {
 			// the scenario un-pauses later
 			r.userQueue = append(r.userQueue, "noop", "noop", "noop", "unpause")
 		}
+	case "rolloutid":
+		// the user re-labels the release (same template, new rollout-id): the BatchRelease restarts from batch 0
+		obj := s.workloadObject()
+		obj.SetNamespace(s.NS)
+		obj.SetName(s.Name)
+		r.ridSeq++
+		body := fmt.Sprintf(`{"metadata":{"labels":{"rollouts.kruise.io/rollout-id":"rid-%s-%d"}}}`, strings.TrimPrefix(r.target, "v"), r.ridSeq)
+		err = user.Patch(c, obj, client.RawPatch(types.MergePatchType, []byte(body)))
 	case "restart":
 		w.Restart()
 	case "noop":
+	case "plan-drop-last", "plan-add-step", "plan-bump":
+		ro := &v1beta1.Rollout{}
+		if err = user.Get(c, key, ro); err != nil {
+			break
+		}
+		var steps *[]v1beta1.CanaryStep
+		if ro.Spec.Strategy.BlueGreen != nil {
+			steps = &ro.Spec.Strategy.BlueGreen.Steps
+		} else if ro.Spec.Strategy.Canary != nil {
+			steps = &ro.Spec.Strategy.Canary.Steps
+		}
+		if steps == nil {
+			break
+		}
+		switch name {
+		case "plan-drop-last":
+			if len(*steps) >= 2 {
+				*steps = (*steps)[:len(*steps)-1]
+			}
+		case "plan-add-step":
+			last := (*steps)[len(*steps)-1]
+			ns := v1beta1.CanaryStep{Replicas: last.Replicas}
+			*steps = append(*steps, ns)
+		case "plan-bump":
+			// change the pause of the first step and the traffic of the last one: a plan edit that keeps the step count
+			d := int32(0)
+			(*steps)[0].Pause.Duration = &d
+		}
+		err = user.Update(c, ro)
 	}
 	if err != nil {
 		r.trace("USER %s failed: %v", a, err)
@@ -460,6 +514,20 @@ func (r *Run) Execute() {
 	ro := r.Rollout()
 	if ro == nil || ro.Status.Phase != v1beta1.RolloutPhaseHealthy {
 		r.StopReason = "setup did not reach Healthy"
+		return
+	}
+	// user actions before the release (plan edits while Healthy, deletion of an idle Rollout, ...)
+	for _, a := range r.S.Pre {
+		r.doUser(a)
+		r.settle(1500)
+	}
+	if r.mode == "deleted" || r.mode == "disabled" {
+		r.released = true
+		for i := 0; i < 400 && r.step(); i++ {
+		}
+		r.Terminal = r.terminalNow()
+		r.Quiescent = true
+		r.StopReason = "ended before any release"
 		return
 	}
 	// release
